@@ -33,12 +33,15 @@ CONSTANTS MaxStmts,    \* statements (simple + if) in the whole program
           Decl,        \* TRUE: also sites whose diagnostic is raised by a LATER pass but located in the statement:
                        \* `declare local` (unused/variable, end of the subroutine) and an unused acl in front of the
                        \* first subroutine (unused/declaration, end of the run); they carry the never-named rule only
+          Plugin,      \* TRUE: every simple statement and every if statement is annotated `@plugin: ...` and so carries a
+                       \* diagnostic raised by a lint plugin (rule "r4": no rule name, like r3 only a directive without a
+                       \* rule list covers it; it goes through the same filter as the built-in diagnostics)
           Switch,      \* TRUE: switch statements (one case holding statements) are generated too
           Odd,         \* TRUE: also the placements where a form covers nothing (falco-ignore on its own line, any
                        \* directive between `}` and `else` or at the end of the file); FALSE: leave them out
           Sample       \* 0: enumerate everything; n > 0: n random programs x n random directive sequences
 
-Rules     == {"r1", "r2", "r3"}
+Rules     == {"r1", "r2", "r3"} \cup (IF Plugin THEN {"r4"} ELSE {})
 \* r3 is never named in a rule list (RuleLists \subseteq SUBSET {"r1", "r2"})
 Types     == {"next", "this", "start", "end"}
 \* "next" = falco-ignore-next-line, "this" = falco-ignore (trailing), "start"/"end" = falco-ignore-start/-end
@@ -111,7 +114,9 @@ Id(e, n)   == e[n][2]
 IsPrefix(a, b) == Len(a) <= Len(b) /\ SubSeq(b, 1, Len(a)) = a
 Sites(e)   == { n \in DOMAIN e : Kind(e, n) \in {"stmt", "if_open", "elif", "decl", "rootdecl"} }
 \* rules of the diagnostics a site carries
-SiteRules(e, n) == IF Kind(e, n) \in {"decl", "rootdecl"} THEN {"r3"} ELSE Rules
+\* (the plugin annotation is a leading comment of a statement: an `else if` condition is not a statement of its own)
+SiteRules(e, n) == IF Kind(e, n) \in {"decl", "rootdecl"} THEN {"r3"}
+                   ELSE IF Kind(e, n) = "elif" THEN Rules \ {"r4"} ELSE Rules
 AllPairs(e) == { p \in Sites(e) \X Rules : p[2] \in SiteRules(e, p[1]) }
 OwnLine(e, n) == Kind(e, n) \in {"lead", "sublead", "block_end", "sw_end", "prelse", "eof"}
 GapOf(e, kind, id) == CHOOSE g \in DOMAIN e : Kind(e, g) = kind /\ Id(e, g) = id
